@@ -278,7 +278,7 @@ impl Monitor {
                 events::ABORT_PARALLEL_ERROR => self.probes.abort_parallel_error += 1,
                 _ => self.probes.abort_fallback += 1,
             },
-            Event::Park { .. } | Event::Notify { .. } | Event::DepOp { .. } => {}
+            Event::Park { .. } | Event::Notify { .. } | Event::DepOp { .. } | Event::ValidationClaimed { .. } => {}
         }
     }
 }
